@@ -3,5 +3,8 @@
 # self-test of the reference IC10 machine so that a broken harness is noticed here.
 cd "$(dirname "$0")"
 mkdir -p evidence replays
-export PYTHONHASHSEED=0 PYTHONDONTWRITEBYTECODE=1
+export PYTHONHASHSEED=0
+unset PYTHONDONTWRITEBYTECODE
+# byte-code caches for the package (git-ignored build output): the @constexpr helper process must import it within 1 s
+/venv/bin/python -m compileall -q "${PYTRAPIC_REPO:-/repo}/src/stationeers_pytrapic" >/dev/null 2>&1 || true
 exec /venv/bin/python -m vp.selftest
